@@ -8,7 +8,7 @@ namespace Qbice.Cycle
 theorem finish_post {p : Program} {st st3 : St} {k : Key} {caller : Option Key} {v : Val}
     (hinv3 : Inv p st3) (hsh : shape st3.stack = shape (regTop k st.stack))
     (hco : CallerOK caller st.stack) (hext : ∃ new, st3.memo = new ++ st.memo)
-    (hval : valOf st3.memo k = some v) :
+    (hval : valOf st3.memo k = some v) (hinv23 : Inv2 p st3) :
     Post p st k (finish caller v st3) st3 := by
   cases caller with
   | none =>
@@ -22,7 +22,7 @@ theorem finish_post {p : Program} {st st3 : St} {k : Key} {caller : Option Key} 
         | cons _ _ => rw [h3] at hsh; simp [shape, regTop] at hsh
       have hfin : finish none v st3 = .value v := by simp [finish, inSccOf]
       rw [hfin]
-      refine ⟨hinv3, hext, by rw [hst]; exact hsh, ?_, ?_⟩
+      refine ⟨hinv3, hext, by rw [hst]; exact hsh, ?_, ?_, hinv23⟩
       · intro v' hv'
         injection hv' with hv'; subst hv'
         exact ⟨by rw [hnil]; intro f hf; simp at hf, hval⟩
@@ -42,13 +42,13 @@ theorem finish_post {p : Program} {st st3 : St} {k : Key} {caller : Option Key} 
       | true =>
         have hfin : finish (some c) v st3 = .cyclic := by simp [finish, inSccOf, hfind, hm]
         rw [hfin]
-        refine ⟨hinv3, hext, by rw [hst]; exact hsh, ?_, ?_⟩
+        refine ⟨hinv3, hext, by rw [hst]; exact hsh, ?_, ?_, hinv23⟩
         · intro v' hv'; cases hv'
         · intro _; exact ⟨t, r', hs3, hm⟩
       | false =>
         have hfin : finish (some c) v st3 = .value v := by simp [finish, inSccOf, hfind, hm]
         rw [hfin]
-        refine ⟨hinv3, hext, by rw [hst]; exact hsh, ?_, ?_⟩
+        refine ⟨hinv3, hext, by rw [hst]; exact hsh, ?_, ?_, hinv23⟩
         · intro v' hv'
           injection hv' with hv'; subst hv'
           have := hinv3.marks
@@ -60,13 +60,15 @@ theorem getElem?_of_lt {p : Program} {k : Key} (h : k < p.length) : ∃ nd, p[k]
   ⟨p[k], List.getElem?_eq_getElem h⟩
 
 theorem afterExit_spec (p : Program) (wf : WFProgram p) (fuel : Nat)
-    (IH : ∀ k caller st, Inv p st → NoMarks st.stack → CallerOK caller st.stack → k < p.length →
+    (IH : ∀ k caller st, Inv p st → Inv2 p st → NoMarks st.stack → CallerOK caller st.stack → k < p.length →
       (∀ top r, st.stack = top :: r → MayAsk (progOf p top.key) k) →
+      (∀ top r, st.stack = top :: r → Reaches (valOf st.memo) (progOf p top.key) k) →
       p.length + 1 ≤ fuel + st.stack.length →
       ∃ r st', queryFor p fuel k caller st = .ok (r, st') ∧ Post p st k r st')
-    (k : Key) (caller : Option Key) (st : St) (hinv : Inv p st) (nm : NoMarks st.stack)
+    (k : Key) (caller : Option Key) (st : St) (hinv : Inv p st) (hinv2 : Inv2 p st) (nm : NoMarks st.stack)
     (hco : CallerOK caller st.stack) (hk : k < p.length)
     (hask : ∀ top r, st.stack = top :: r → MayAsk (progOf p top.key) k)
+    (hreach : ∀ top r, st.stack = top :: r → Reaches (valOf st.memo) (progOf p top.key) k)
     (hfuel : p.length + 1 ≤ (fuel + 1) + st.stack.length) (hks : k ∉ keys st.stack) :
     ∃ r st', afterExit p fuel k caller { st with stack := regTop k st.stack } = .ok (r, st') ∧
       Post p st k r st' := by
@@ -86,32 +88,36 @@ theorem afterExit_spec (p : Program) (wf : WFProgram p) (fuel : Nat)
     have hEq : afterExit p fuel k caller { st with stack := regTop k st.stack }
         = .ok (finish caller d.val { st with stack := regTop k st.stack }, { st with stack := regTop k st.stack }) := by
       simp only [afterExit, hfd]
-    exact ⟨_, _, hEq, finish_post (st := st) hinv' rfl hco ⟨[], rfl⟩ (by simp [valOf, hfd])⟩
+    exact ⟨_, _, hEq, finish_post (st := st) hinv' rfl hco ⟨[], rfl⟩ (by simp [valOf, hfd]) (inv2_reg hinv2 k)⟩
   | none =>
     have hkm : k ∉ mkeys st.memo := findDone_none_iff.1 hfd
     obtain ⟨nd, hnd⟩ := getElem?_of_lt hk
     obtain ⟨hinv1, nm1⟩ := inv_push hinv nm hks hkm hk hask
+    have hinv21 := inv2_push hinv2 nm hreach
     have hsub : ∀ x, MayAsk nd.prog x → MayAsk (progOf p k) x := by
       intro x hx; rw [progOf_eq hnd]; exact hx
-    obtain ⟨ran, st2, top', rest', new, hrun, hinv2, hnew, hs2, htk, hrest, _, hdone, habort⟩ :=
-      runProg_spec p fuel k (fun k' st' a b c d e f => IH k' (some k) st' a b c d e f) nd.prog (wf k nd hnd) hsub
+    obtain ⟨ran, st2, top', rest', new, hrun, hinv2', hinv22, hnew, hs2, htk, hrest, _, hdone, habort⟩ :=
+      runProg_spec p fuel k (fun k' st' a a2 b c d e e2 f => IH k' (some k) st' a a2 b c d e e2 f) nd.prog (wf k nd hnd) hsub
         { st with stack := { key := k, callees := [], inScc := false } :: regTop k st.stack }
-        { key := k, callees := [], inScc := false } (regTop k st.stack) hinv1 nm1 rfl rfl
+        { key := k, callees := [], inScc := false } (regTop k st.stack) hinv1 hinv21 nm1 rfl rfl
+        (fun tbl _ t rr => by rw [progOf_eq hnd]; exact rr)
         (by simp only [List.length_cons, length_regTop]; omega)
     simp only at hnew
     have hfind : findFrame k st2.stack = some top' := by rw [hs2]; simp [findFrame, htk]
     have hfilter : st2.stack.filter (fun g => g.key != k) = rest' := by
       rw [hs2, ← htk]
-      exact filter_head_key (by rw [← hs2]; exact hinv2.nodup_keys)
+      exact filter_head_key (by rw [← hs2]; exact hinv2'.nodup_keys)
     cases hm : top'.inScc with
     | true =>
       let d : Done := { key := k, val := nd.dflt, marked := true, reads := top'.callees }
       have hinv3 : Inv p { stack := rest', memo := d :: st2.memo } :=
-        inv_pop hinv2 hs2 d htk.symm rfl hm.symm (fun _ => (dfltOf_eq hnd).symm) (fun h => by cases h)
+        inv_pop hinv2' hs2 d htk.symm rfl hm.symm (fun _ => (dfltOf_eq hnd).symm) (fun h => by cases h)
+      have hinv23 : Inv2 p { stack := rest', memo := d :: st2.memo } :=
+        inv2_pop hinv22 hinv2' hs2 d htk.symm hm.symm (fun _ => (dfltOf_eq hnd).symm) (fun h => by cases h)
       have hEq : afterExit p fuel k caller { st with stack := regTop k st.stack }
           = .ok (finish caller nd.dflt { stack := rest', memo := d :: st2.memo }, { stack := rest', memo := d :: st2.memo }) := by
         simp only [afterExit, hfd, hnd, hrun, hfind, hm, if_true, hfilter, d]
-      exact ⟨_, _, hEq, finish_post (st := st) hinv3 hrest hco ⟨d :: new, by simp [hnew]⟩ (by simp [valOf, findDone, d])⟩
+      exact ⟨_, _, hEq, finish_post (st := st) hinv3 hrest hco ⟨d :: new, by simp [hnew]⟩ (by simp [valOf, findDone, d]) hinv23⟩
     | false =>
       cases ran with
       | aborted => rw [habort rfl] at hm; cases hm
@@ -119,28 +125,32 @@ theorem afterExit_spec (p : Program) (wf : WFProgram p) (fuel : Nat)
         obtain ⟨_, hev, hasks⟩ := hdone v rfl
         let d : Done := { key := k, val := v, marked := false, reads := top'.callees }
         have hinv3 : Inv p { stack := rest', memo := d :: st2.memo } :=
-          inv_pop hinv2 hs2 d htk.symm rfl hm.symm (fun h => by cases h)
+          inv_pop hinv2' hs2 d htk.symm rfl hm.symm (fun h => by cases h)
             (fun _ => ⟨by rw [progOf_eq hnd]; exact hev, by rw [progOf_eq hnd]; exact hasks⟩)
+        have hinv23 : Inv2 p { stack := rest', memo := d :: st2.memo } :=
+          inv2_pop hinv22 hinv2' hs2 d htk.symm hm.symm (fun h => by cases h)
+            (fun _ => by rw [progOf_eq hnd]; exact hev)
         have hEq : afterExit p fuel k caller { st with stack := regTop k st.stack }
             = .ok (finish caller v { stack := rest', memo := d :: st2.memo }, { stack := rest', memo := d :: st2.memo }) := by
           simp only [afterExit, hfd, hnd, hrun, hfind, hm, Bool.false_eq_true, if_false, hfilter, d]
-        exact ⟨_, _, hEq, finish_post (st := st) hinv3 hrest hco ⟨d :: new, by simp [hnew]⟩ (by simp [valOf, findDone, d])⟩
+        exact ⟨_, _, hEq, finish_post (st := st) hinv3 hrest hco ⟨d :: new, by simp [hnew]⟩ (by simp [valOf, findDone, d]) hinv23⟩
 
 /-- **Main lemma.**  From a state that satisfies the invariant and carries no marks, with the caller
     on top of the stack, `queryFor` succeeds with any fuel covering the remaining depth. -/
 theorem queryFor_spec (p : Program) (wf : WFProgram p) : ∀ (fuel : Nat) (k : Key) (caller : Option Key) (st : St),
-    Inv p st → NoMarks st.stack → CallerOK caller st.stack → k < p.length →
+    Inv p st → Inv2 p st → NoMarks st.stack → CallerOK caller st.stack → k < p.length →
     (∀ top r, st.stack = top :: r → MayAsk (progOf p top.key) k) →
+    (∀ top r, st.stack = top :: r → Reaches (valOf st.memo) (progOf p top.key) k) →
     p.length + 1 ≤ fuel + st.stack.length →
     ∃ r st', queryFor p fuel k caller st = .ok (r, st') ∧ Post p st k r st' := by
   intro fuel
   induction fuel with
   | zero =>
-    intro k caller st hinv _ _ _ _ hfuel
+    intro k caller st hinv _ _ _ _ _ _ hfuel
     have := hinv.stack_length_le
     omega
   | succ fuel ih =>
-    intro k caller st hinv nm hco hk hask hfuel
+    intro k caller st hinv hinv2 nm hco hk hask hreach hfuel
     rw [queryFor_succ]
     cases caller with
     | none =>
@@ -151,7 +161,7 @@ theorem queryFor_spec (p : Program) (wf : WFProgram p) : ∀ (fuel : Nat) (k : K
           cases st; simp at hst; simp [hst, regTop]
         have hks : k ∉ keys st.stack := by rw [hst]; simp [keys]
         have hff : findFrame k st.stack = none := findFrame_none_iff.2 hks
-        obtain ⟨r, st', h1, h2⟩ := afterExit_spec p wf fuel ih k none st hinv nm hco hk hask hfuel hks
+        obtain ⟨r, st', h1, h2⟩ := afterExit_spec p wf fuel ih k none st hinv hinv2 nm hco hk hask hreach hfuel hks
         rw [hreg] at h1
         refine ⟨r, st', ?_, h2⟩
         dsimp only
@@ -172,14 +182,15 @@ theorem queryFor_spec (p : Program) (wf : WFProgram p) : ∀ (fuel : Nat) (k : K
           have hks : k ∉ keys st.stack := by
             rw [← keys_regTop k]; exact findFrame_none_iff.1 hff
           simp only
-          exact afterExit_spec p wf fuel ih k (some c) st hinv nm hco hk hask hfuel hks
+          exact afterExit_spec p wf fuel ih k (some c) st hinv hinv2 nm hco hk hask hreach hfuel hks
         | some f0 =>
           have hks : k ∈ keys st.stack := by
             rw [← keys_regTop k, ← findFrame_isSome_iff, hff]; rfl
           obtain ⟨s', hcc, hinv', hsh, hhead⟩ := inv_mark hinv nm hst hks (hask top r hst)
-          rw [hck] at hcc hinv' hsh hhead
+          have hinv2' := inv2_mark hinv2 hinv nm hst hks (hreach top r hst) s' hcc
+          rw [hck] at hcc hinv' hsh hhead hinv2'
           simp only [hcc]
-          refine ⟨.cyclic, _, rfl, hinv', ⟨[], rfl⟩, hsh, ?_, fun _ => hhead⟩
+          refine ⟨.cyclic, _, rfl, hinv', ⟨[], rfl⟩, hsh, ?_, fun _ => hhead, hinv2'⟩
           intro v hv; cases hv
 
 end Qbice.Cycle
